@@ -26,6 +26,9 @@ import (
 //	  - total queued <= GlobalQueue unless every account with queued transactions is local
 //	  - total pending <= GlobalSlots or no non-local account holds more than AccountSlots
 func (w *world) observe(tag string) {
+	if w.tainted {
+		return // the run is being wound down after a possibly order-dependent queue truncation
+	}
 	r := w.r
 	pool := w.pool
 	head := w.poolHead
@@ -54,6 +57,14 @@ func (w *world) observe(tag string) {
 	for _, l := range cq {
 		nq += len(l)
 	}
+	// A reorg that leaves the queue at (or, with locals, above) GlobalQueue may have run
+	// truncateQueue. Which non-local account loses its transactions there is decided by an
+	// unstable sort over a slice built by ranging a map, keyed by heartbeats that tie whenever
+	// accounts were promoted in the same reorg or never (tx_pool.go:1170-1176): from here on
+	// the pool's content is not a function of the seed any more (DESIGN 2.10). Everything that
+	// does not depend on whose queued transactions were dropped is still checked at this point;
+	// then the run ends.
+	taintNow := tag == "reorg" && uint64(nq) >= w.cfg.GlobalQueue
 	if sp != np || sq != nq || tp != np || tq != nq {
 		r.Report("stats-mismatch", "Stats()=(%d,%d) TransactionsNumber()=(%d,%d) but Content() holds %d pending and %d queued (%s)", sp, sq, tp, tq, np, nq, tag)
 	}
@@ -118,6 +129,10 @@ func (w *world) observe(tag string) {
 		a := addrs[i]
 		stNonce, bal := head.nonce[i], head.bal[i]
 		pl, ql := cp[a], cq[a]
+		qshow := nonceList(ql)
+		if taintNow {
+			qshow = "(not traced)"
+		}
 		gapped := false
 		for j, tx := range pl {
 			rec := w.gen.byHash[tx.Hash()]
@@ -138,7 +153,7 @@ func (w *world) observe(tag string) {
 					// nonce is lower than before (re-injection below the old pending range)
 					cls = "pending-gap-after-nonce-lowering-reset"
 				}
-				r.Report(cls, "A%d at %s has state nonce %d but pending nonces %s and queued nonces %s; Nonce()=%d (position %d is %s, want nonce %d) (%s)", i, head.name, stNonce, nonceList(pl), nonceList(ql), pool.Nonce(a), j, nm, want, tag)
+				r.Report(cls, "A%d at %s has state nonce %d but pending nonces %s and queued nonces %s; Nonce()=%d (position %d is %s, want nonce %d) (%s)", i, head.name, stNonce, nonceList(pl), qshow, pool.Nonce(a), j, nm, want, tag)
 				break
 			}
 		}
@@ -157,9 +172,16 @@ func (w *world) observe(tag string) {
 		}
 		w.gapPrev[i] = gapped
 		if gapped {
+			w.gapSeen[i] = true
+		}
+		if w.gapSeen[i] {
 			// what follows (queue position, Nonce view) is judged relative to a contiguous
-			// pending range; with a gap already reported it would only restate it.
+			// pending range; with a gap already reported it would only restate it. The virtual
+			// nonce stays derived from the gapped list until the next reset rebuilds it.
 			continue
+		}
+		if taintNow {
+			ql = nil // whose queued transactions survived truncateQueue is not a function of the seed
 		}
 		if len(ql) > 0 {
 			lo := ql[0].Nonce()
@@ -178,7 +200,7 @@ func (w *world) observe(tag string) {
 			if got < stNonce {
 				cls = "nonce-view-below-state-nonce"
 			}
-			r.Report(cls, "Nonce(A%d)=%d but state nonce at %s is %d and %d transactions are pending: pending %s queued %s (%s)", i, got, head.name, stNonce, len(pl), nonceList(pl), nonceList(ql), tag)
+			r.Report(cls, "Nonce(A%d)=%d but state nonce at %s is %d and %d transactions are pending: pending %s queued %s (%s)", i, got, head.name, stNonce, len(pl), nonceList(pl), qshow, tag)
 		}
 	}
 
@@ -201,7 +223,7 @@ func (w *world) observe(tag string) {
 				continue
 			}
 			nonLocalQueued = true
-			if uint64(len(cq[a])) > w.cfg.AccountQueue && fresh("aq"+w.an(a)) {
+			if uint64(len(cq[a])) > w.cfg.AccountQueue && !taintNow && fresh("aq"+w.an(a)) {
 				r.Report("account-queue-limit"+phase, "non-local %s holds %d queued transactions %s (pending %s), AccountQueue=%d, nothing outstanding", w.an(a), len(cq[a]), nonceList(cq[a]), nonceList(cp[a]), w.cfg.AccountQueue)
 			}
 		}
@@ -230,23 +252,20 @@ func (w *world) observe(tag string) {
 		w.limitPrev = nil
 	}
 
-	// --- trace: pool content while it is a function of the seed
-	if tag == "reorg" && !w.tainted && uint64(nq) >= w.cfg.GlobalQueue {
-		// truncateQueue may have chosen among accounts with equal heartbeats in map order
-		// (tx_pool.go:1170-1176, unstable sort over a slice built by ranging a map): from
-		// here on pool content may differ between executions of this seed.
+	// --- trace: pool content (a function of the seed up to and excluding a tainting reorg)
+	if taintNow {
 		w.tainted = true
-		r.Probe("trace-inputs-only-after-queue-truncation")
-		r.Logf("-- queue at GlobalQueue after a reorg: pool content is not traced from here on (map-order ties)")
+		r.Probe("run-ended-at-possible-queue-truncation")
+		r.Logf("-- queue at GlobalQueue (%d/%d) after a reorg: truncateQueue may have broken heartbeat ties in map order; run ends here", nq, w.cfg.GlobalQueue)
+		r.FP("taint")
+		return
 	}
-	if !w.tainted {
-		s := w.summary(cp, cq)
-		if s != w.lastSummary {
-			r.Logf("   pool[%s@%s]: %s", tag, head.name, s)
-			w.lastSummary = s
-		}
-		r.FP(fmt.Sprintf("%d/%d", np, nq))
+	s := w.summary(cp, cq)
+	if s != w.lastSummary {
+		r.Logf("   pool[%s@%s]: %s", tag, head.name, s)
+		w.lastSummary = s
 	}
+	r.FP(fmt.Sprintf("%d/%d", np, nq))
 	if np > 0 && nq > 0 {
 		r.Probe("pending-and-queued-nonempty")
 	}
